@@ -188,6 +188,20 @@ pub fn panic_in_repo(msg: &str) -> bool {
 }
 
 // ---------------------------------------------------------------------------------------------
+// progress trace (only active when a case is re-run alone): lets a case say what it is about to
+// do, so that a hang can be attributed to a concrete input
+
+pub fn trace_enabled() -> bool {
+    std::env::var_os("VCHECK_TRACE_FILE").is_some()
+}
+
+pub fn trace(what: impl FnOnce() -> String) {
+    if let Some(p) = std::env::var_os("VCHECK_TRACE_FILE") {
+        std::fs::write(p, what()).ok();
+    }
+}
+
+// ---------------------------------------------------------------------------------------------
 // worker
 
 fn case_to_json(idx: u64, out: &CaseOut) -> Value {
@@ -323,9 +337,19 @@ impl Agg {
     }
 }
 
+fn trace_path(id: &str, idx: u64) -> String {
+    format!("{VERIF_DIR}/work/trace-{id}-{idx}.txt")
+}
+
 fn spawn_worker(id: &str, tier: Tier, seed: u64, start: u64, step: u64, only: bool) -> Child {
     let exe = std::env::current_exe().expect("current_exe");
-    Command::new(exe)
+    let mut cmd = Command::new(exe);
+    if only {
+        std::fs::create_dir_all(format!("{VERIF_DIR}/work")).ok();
+        std::fs::remove_file(trace_path(id, start)).ok();
+        cmd.env("VCHECK_TRACE_FILE", trace_path(id, start));
+    }
+    cmd
         .args([
             "worker",
             id,
@@ -585,14 +609,16 @@ pub fn driver_main(check: &dyn Check, tier: Tier, seed: u64, replay_idx: Option<
             }
             Err("timeout") => {
                 if check.hang_is_violation() {
-                    hang_violations.push((*idx, format!("case {idx} did not return within {}s when run alone (first seen as {why})", cap.as_secs() * 5)));
+                    let last = std::fs::read_to_string(trace_path(id, *idx)).unwrap_or_default();
+                    hang_violations.push((*idx, format!("case {idx} did not return within {}s when run alone (first seen as {why}); last traced step: {}", cap.as_secs() * 5, last.chars().take(600).collect::<String>())));
                 } else {
                     agg.inconclusive_n += 1;
                     agg.inconclusive.push(format!("case {idx}: no result within the isolated cap (first seen as {why})"));
                 }
             }
             Err(_) => {
-                hang_violations.push((*idx, format!("case {idx} aborted the worker process when run alone (stack overflow / allocation failure / abort), first seen as {why}")));
+                let last = std::fs::read_to_string(trace_path(id, *idx)).unwrap_or_default();
+                hang_violations.push((*idx, format!("case {idx} aborted the worker process when run alone (stack overflow / allocation failure / abort), first seen as {why}; last traced step: {}", last.chars().take(600).collect::<String>())));
             }
         }
     }
